@@ -125,3 +125,55 @@ PROPS = {
         exhaustive=False, assumptions=["in-process cases drive the real site::Reader through an in-memory genotype::Reader; CLI cases run the real binary on generated VCF text / BCF (noodles writer, or a hand-written BCF2.2 encoder for mixed ploidy) / BGZF", "noodles (VCF/BCF/BGZF parsing), clap and env_logger are exercised, not modelled"] + ["thread scheduling, OS pipes and hash seeds are runtime behaviour: explored by repetition, not proved"],
     ),
 }
+
+IO_ASSUME = ["in-process cases call the real write::Builder / Array::read_npy / text reader (hook verif_read_text) / read::Builder; CLI cases run the real binary on pipes and files", "std `{:.p}` and `f64::from_str` are modelled (fmtFixed, parseF64) and compared string-for-string / bit-for-bit on every run; non-ASCII input bytes are outside the model and not generated"]
+
+PROPS.update({
+    "C07": dict(
+        theorems=["npy_roundtrip", "writeNpy_ok", "detect_npy", "reads_what_it_writes_npy", "text_header_roundtrip", "fmtFixed_token", "text_shape_tokens",
+                  "fmtFixed_error", "fmtRatFixed_parses", "text_value_roundtrip", "text_special_roundtrip", "literal_bound_witness", "detect_text", "reads_what_it_writes_text"],
+        nontrivial=r"^(npyrt-res\d+-d[2-9]|npyrt-.*special|textrt-p\d+-d[2-9]|fmt-fin|parse-|pipe-|t2n2t-|detect-[NT])",
+        rule="220 (thorough 3000) random spectra with 1-6 axes over value classes {counts, negative dyadics, decimal ties, subnormals, huge, arbitrary bit patterns, NaN with several payloads, +-inf, +-0}: "
+             "write npy -> bytes compared with writeNpy, read back compared with readNpy (bit patterns); write text at precision 0..17 -> bytes compared with writeText (i.e. `{:.p}` vs fmtFixed), "
+             "read back compared with readText (f64::from_str vs parseF64, bit for bit); 2500 (thorough 50000) single values formatted, 1650 (thorough 20000) decimal strings parsed incl. a malformed stream; "
+             "format detection on prefixes; 40 (thorough 400) CLI chains `sfs view -O {npy,text} --precision p` to a pipe or a file, read by view / fold / stat with auto-detection; "
+             "40 (thorough 300) text -> npy -> text chains at equal precision (clause checked on the model for <= 15 significant digits); "
+             "non-trivial = distinct request other than a 1-axis spectrum without special values, a non-finite single value or an undetected prefix",
+        exhaustive=False, assumptions=IO_ASSUME,
+        correspondence_only=["text -> npy -> text reproduces the text when printed values have <= 15 significant digits (checked on the model for every generated case; no theorem)"],
+    ),
+    "C15": dict(
+        theorems=["writer_layout", "writer_data_offset", "writer_error_iff", "writer_dict_parses", "grammar_accepts_numpy", "bar_is_little", "descr_accepted_iff",
+                  "header_len_width", "bad_version_rejected", "fortran_rejected", "readValues_spec", "decode_big_eq", "decode_f8", "decode_f4", "signedOf_spec",
+                  "decode_unsigned_exact", "decode_signed_exact", "decode_unsigned_nearest", "decoder_table"],
+        nontrivial=r"^(npyrt-|numpy-|npyread-)",
+        rule="writer: 69 shapes whose header dict length covers every residue modulo 64 (each residue is a tag in the histogram), zero-length axes, 40 (thorough 400) random shapes — bytes compared with writeNpy, "
+             "and a third (thorough all) loaded by real numpy (python3-vt) and compared bit for bit; reader: 186 (thorough ~600) files written by numpy.lib.format.write_array for dtype(10) x byte order(<,>) x version(1.0,2.0,3.0) "
+             "with boundary values (min, max, +-1, 2^53+-1.., 2^64-1025..) where model, implementation and numpy's astype('<f8') must agree bit for bit, plus numpy files that must be rejected (Fortran order, bool, complex, f2, 0-d, str, structured); "
+             "synthesized headers: type(10) x byte-order char(<,>,|) x version(1,2,3) x spelling (quotes, spacing, key order, trailing commas; a third outside the accepted family), unsupported descr strings, bad versions, count mismatches, malformed tuples; "
+             "non-trivial = every distinct request",
+        exhaustive=True, assumptions=IO_ASSUME + ["numpy 2.x from the tooling venv is the oracle the property names; if python3-vt is missing those cases are skipped and the evidence shows no numpy-* tags"],
+    ),
+    "C16": dict(
+        theorems=["prefix_rejected", "extension_rejected", "damaged_npy_rejected", "npy_accept_sound", "text_accept_sound", "text_token_count_rejected",
+                  "text_shape_edit_rejected", "overflow_is_none", "overflow_behind_zero_is_none", "cli_no_output_on_reject"],
+        nontrivial=r"^(npyread-err|textread-err|specread-err|cli-\w+-rejected)",
+        rule="20 (thorough 200) valid npy files written by the implementation: every truncation offset 0..len-1 and every extension 1..16 (zeros and random bytes) through Array::read_npy (exhaustive per file), "
+             "a sample of offsets (header boundaries, value boundaries +-1, every 29th) through read::Builder with auto-detection and through the binary (view / fold / stat: exit status 1 and empty stdout required); "
+             "25 (thorough 120) text files: every single-token removal and insertion, every axis edited (+1, -1, x2, +2^32), axis dropped / added, overflowing and zero-masked overflowing shapes, missing value line, tabs/newlines as separators, a non-numeric token; "
+             "non-trivial = distinct damaged input that the model rejects",
+        exhaustive=True, assumptions=IO_ASSUME,
+    ),
+    "C18": dict(
+        theorems=["readExact_schedule_free", "readLine_schedule_free", "readToEnd_schedule_free", "readNpy_schedule_free", "readText_schedule_free", "detect_schedule_free",
+                  "read_failure_surfaces_npy", "read_failure_is_io_npy", "read_failure_surfaces_text", "writeAll_schedule_free", "writeNpy_schedule_free", "writeText_schedule_free",
+                  "write_failure_surfaces_npy", "write_failure_surfaces_text"],
+        nontrivial=r"^(rdnpy-|rdtext-|wr-|geno-)",
+        rule="6 (thorough 30) npy files: first-chunk length enumerated 1..min(len,600) with later chunks whole / 1 byte / random 1-11, a read failure injected at every byte offset 0..len (incl. failing instead of EOF), truncated files over random schedules; "
+             "the text reader likewise; writers: 1..7 bytes accepted per call and random schedules, a write failure at every offset (every third in quick); "
+             "genotype reader (hook build_from_bufread) over vcf / vcf.gz / bcf / raw bcf for 3 (thorough 12) call sets: first chunk 1..150 (thorough 600) then whole / 1-byte / random chunks, 4096 / 8192 / 65535 / 65536 / 65537, all 1-byte, "
+             "and failures at 21 (thorough 101) offsets across the stream — a failing stream must give an error or the complete result; compared with the create model; non-trivial = every distinct request",
+        exhaustive=True, assumptions=IO_ASSUME + ["noodles' VCF/BCF/BGZF readers are exercised over chunk schedules, not modelled (partial: explored, not proved)"],
+        correspondence_only=["schedule independence and failure propagation of the noodles-based genotype reader path (vcf, vcf.gz, bcf, raw bcf)"],
+    ),
+})
